@@ -142,11 +142,77 @@ func gzMembersEngine(c *Ctx) {
 		for _, op := range ls {
 			if strings.HasPrefix(op, "gzmembers ") {
 				gzMembersExec(c, op)
+			} else if strings.HasPrefix(op, "implicit-parents") {
+				implicitParentsExec(c, op)
 			}
 		}
 		return
 	}
 	for k := 1; k <= 3; k++ {
 		gzMembersExec(c, fmt.Sprintf("gzmembers %d", k))
+	}
+	implicitParentsExec(c, "implicit-parents tar")
+}
+
+// implicit-parents: archive F lists only `a/b` (root and `a` implied: default attributes); fileset G has the same file
+// below *explicit* directories owned by 7000:7001 @1234567. F and G are different filesets with different ids — whatever
+// filter the reader of F asks for: F offered at G's address (a mislabelled warehouse object) is refused under every
+// filter, in particular under the one that would turn F's implied directories into G's. Recipe: "implicit-parents tar".
+func implicitParentsExec(c *Ctx, op string) {
+	c.Begin(op)
+	c.EmitR(op, "skip", "skip")
+	caseCounter++
+	base := filepath.Join(c.Work, fmt.Sprintf("ipx%d", caseCounter))
+	defer rmrf(base)
+	os.MkdirAll(base, 0755)
+	os.Setenv("RIO_CACHE", filepath.Join(base, "cache"))
+	t7 := time.Unix(1234567, 0)
+	mk := func(name string, explicit bool) string {
+		var buf bytes.Buffer
+		tw := tar.NewWriter(&buf)
+		if explicit {
+			tw.WriteHeader(&tar.Header{Name: "./", Typeflag: tar.TypeDir, Mode: 0755, Uid: 7000, Gid: 7001, ModTime: t7})
+			tw.WriteHeader(&tar.Header{Name: "./a/", Typeflag: tar.TypeDir, Mode: 0755, Uid: 7000, Gid: 7001, ModTime: t7})
+		}
+		tw.WriteHeader(&tar.Header{Name: "./a/b", Typeflag: tar.TypeReg, Mode: 0644, Uid: 7000, Gid: 7001, ModTime: t7, Size: 1})
+		tw.Write([]byte("x"))
+		tw.Close()
+		p := filepath.Join(base, name)
+		os.WriteFile(p, buf.Bytes(), 0644)
+		return p
+	}
+	fPath, gPath := mk("F.tar", false), mk("G.tar", true)
+	scan := func(p, fl string) string {
+		id, err, pan := safeCall(func() (api.WareID, error) {
+			return tartrans.Scan(context.Background(), "tar", api.MustParseFilesetUnpackFilter(fl), rio.Placement_None, api.WarehouseLocation("file://"+p), rio.Monitor{})
+		})
+		return resTok(id, err, pan)
+	}
+	idF, idG := scan(fPath, losslessUnpackStr), scan(gPath, losslessUnpackStr)
+	c.H("implicit-parents:" + strings.Fields(idF)[0] + ":" + strings.Fields(idG)[0])
+	if !strings.HasPrefix(idF, "ok ") || !strings.HasPrefix(idG, "ok ") {
+		return
+	}
+	if idF == idG {
+		c.PropFail("collision", "an archive with implied (default) directories and one with explicit directories of other owners scan to the same id "+idF, op)
+	}
+	for _, fl := range []string{losslessUnpackStr, "uid=7000,gid=7001,mtime=@1234567,sticky=follow,setid=follow,dev=follow", "uid=7000,gid=follow,mtime=follow,sticky=follow,setid=follow,dev=follow", "uid=mine,gid=mine,mtime=@1234567,sticky=follow,setid=follow,dev=follow"} {
+		for _, pm := range []rio.PlacementMode{rio.Placement_None, rio.Placement_Direct} {
+			caseCounter++
+			os.Setenv("RIO_CACHE", filepath.Join(base, fmt.Sprintf("cache%d", caseCounter)))
+			_, err, pan := safeCall(func() (api.WareID, error) {
+				return tartrans.Unpack(context.Background(), api.WareID{Type: "tar", Hash: strings.TrimPrefix(idG, "ok ")}, filepath.Join(base, fmt.Sprintf("dst%d", caseCounter)), api.MustParseFilesetUnpackFilter(fl), pm, []api.WarehouseLocation{api.WarehouseLocation("file://" + fPath)}, rio.Monitor{})
+			})
+			if err == nil && pan == "" {
+				c.PropFail("collision", fmt.Sprintf("archive F (only `a/b`, directories implied with default attributes) was accepted as ware %s — the id of the different fileset G (explicit directories 7000:7001) — when read with the filter %s: the verified hash of an archive depends on the reader's filter", idG, fl), op)
+			}
+			// … and F is F under every filter: asked for by its own id it is served
+			_, err2, pan2 := safeCall(func() (api.WareID, error) {
+				return tartrans.Unpack(context.Background(), api.WareID{Type: "tar", Hash: strings.TrimPrefix(idF, "ok ")}, filepath.Join(base, fmt.Sprintf("dstF%d", caseCounter)), api.MustParseFilesetUnpackFilter(fl), pm, []api.WarehouseLocation{api.WarehouseLocation("file://" + fPath)}, rio.Monitor{})
+			})
+			if err2 != nil || pan2 != "" {
+				c.PropFail("collision", fmt.Sprintf("archive F asked for by its own id %s is refused under the filter %s (%s): its verified hash depends on the reader's filter", idF, fl, resTok(api.WareID{}, err2, pan2)), op)
+			}
+		}
 	}
 }
